@@ -28,6 +28,7 @@ EXPAND = ['ExpandJson', 'ExpandToml', 'SplitBack']
 ASSIGN = [f + b for b in ('Json', 'Toml') for f in ('AssignScalar', 'AssignObject', 'AssignArray', 'AssignValue', 'Assign')] + ['SplitFront', 'IsRoot', 'ForLenIncl']
 LABELS = [n + 'Err' + a for n in ('Resolve', 'Assign') for a in ('Position', 'Offset', 'Labels')]
 PARSEERR = ['ParseErrOffset', 'ParseErrPointerOffset', 'ParseErrSourceOffset', 'ParseErrCompleteOffset', 'ParseErrInvalidEncodingLen', 'ParseErrLabels']
+BUILD = ['GetUsize', 'First', 'Last', 'WithTrailingToken', 'WithLeadingToken', 'Concat']
 BUF = ['FromTokens', 'PushFront', 'PushBack', 'PopBack', 'Append', 'Clear', 'PopFront', 'Replace']
 def _u(*ls):
     out = []
@@ -37,18 +38,18 @@ def _u(*ls):
     return out
 # which regenerated functions each property rests on, and the transported theorem modules
 PROP_FUNCS = {
-    'C01': _u(['ValidateBytes'], TOKEN, SLICE, POINTER, BUF),
+    'C01': _u(['ValidateBytes'], TOKEN, SLICE, POINTER, BUF, BUILD),
     'C11': _u(BUF, ['IsRoot', 'Count']),
     'C02': ['ValidateBytes'], 'C14': _u(['ValidateBytes'], PARSEERR),
     'C05': _u(WALKS, ['IndexFromStr', 'ForLen'], TOIDX), 'C09': _u(WALKS, DELETE, EXPAND, ASSIGN, ['IndexFromStr', 'ForLen'], TOIDX), 'C15': _u(WALKS, ASSIGN, LABELS, ['IndexFromStr', 'ForLen'], TOIDX),
     'C08': _u(WALKS, DELETE, ['IndexFromStr', 'ForLen'], TOIDX), 'C10': _u(WALKS, DELETE, EXPAND, ASSIGN, ['IndexFromStr', 'ForLen'], TOIDX),
     'C06': _u(EXPAND, ASSIGN, ['IndexFromStr', 'ForLenIncl'], TOIDX), 'C07': _u(EXPAND, ASSIGN, ['IndexFromStr', 'ForLenIncl'], TOIDX),
-    'C03': TOKEN, 'C04': _u(ACCESS, ['FromTokens']), 'C12': _u(SLICE, SPLITS), 'C13': _u(RELS, ['Append']), 'C16': INDEX,
+    'C03': TOKEN, 'C04': _u(ACCESS, ['FromTokens'], BUILD, ['PushBack', 'PushFront', 'Append']), 'C12': _u(SLICE, SPLITS, ['GetUsize']), 'C13': _u(RELS, ['Append', 'Concat']), 'C16': INDEX,
     'C19': _u(TOKEN, SLICE, SPLITS, RELS, ACCESS),
 }
 TRANSPORT_MEMBERS = {'TransportValidate': ['ValidateBytes'], 'TransportToken': TOKEN, 'TransportSlice': SLICE, 'TransportIndex': INDEX,
                      'TransportPointer': POINTER, 'TransportResolve': WALKS, 'TransportBuf': BUF, 'TransportDelete': ['DeleteJson', 'DeleteToml'], 'TransportExpand': ['ExpandJson', 'ExpandToml'],
-                     'TransportAssign': [x for x in ASSIGN if x.startswith('Assign')], 'TransportLabels': LABELS, 'TransportParseErr': PARSEERR}
+                     'TransportAssign': [x for x in ASSIGN if x.startswith('Assign')], 'TransportBuild': BUILD, 'TransportLabels': LABELS, 'TransportParseErr': PARSEERR}
 TIE_THEOREMS = {
     'ValidateBytes': ['Jp.Tie.validate_bytes_eq', 'Jp.Tie.validate_bytes_nil'], 'FromEncoded': ['Jp.Tie.from_encoded_eq'],
     'TokenNew': ['Jp.Tie.new_eq'], 'Decoded': ['Jp.Tie.decoded_eq'], 'ForLen': ['Jp.Tie.for_len_eq'],
@@ -80,6 +81,8 @@ TIE_THEOREMS = {
     'ParseErrOffset': ['Jp.Tie.parse_err_offset_eq'], 'ParseErrPointerOffset': ['Jp.Tie.parse_err_pointer_offset_eq'],
     'ParseErrSourceOffset': ['Jp.Tie.parse_err_source_offset_eq'], 'ParseErrCompleteOffset': ['Jp.Tie.parse_err_complete_offset_eq'],
     'ParseErrInvalidEncodingLen': ['Jp.Tie.parse_err_invalid_encoding_len_eq'], 'ParseErrLabels': ['Jp.Tie.parse_err_labels_eq'],
+    'GetUsize': ['Jp.Tie.get_usize_eq', 'Jp.Tie.get_usize_none'], 'First': ['Jp.Tie.first_eq'], 'Last': ['Jp.Tie.last_eq'],
+    'WithTrailingToken': ['Jp.Tie.with_trailing_token_eq'], 'WithLeadingToken': ['Jp.Tie.with_leading_token_eq'], 'Concat': ['Jp.Tie.concat_eq'],
     'ParseIndex': ['Jp.Tie.parse_index_eq'], 'ResolveJson': ['Jp.Tie.resolve_json_eq', 'Jp.Tie.resolve_json_loop'],
     'ResolveMutJson': ['Jp.Tie.resolve_mut_json_eq'], 'ResolveToml': ['Jp.Tie.resolve_toml_eq'], 'ResolveMutToml': ['Jp.Tie.resolve_mut_toml_eq'],
 }
@@ -97,6 +100,7 @@ TRANSPORT_THEOREMS = {
                      'run_gen_buf_eq', 'gen_history_refines'],
     'TransportExpand': ['gen_expand_json_spec', 'gen_expand_backends_agree'],
     'TransportParseErr': ['gen_invalid_encoding_offsets', 'gen_label_inside', 'gen_label_starts_at_tilde'],
+    'TransportBuild': ['gen_get_usize_list', 'gen_first_last', 'gen_with_trailing_tokens', 'gen_with_leading_tokens', 'gen_concat_tokens'],
     'TransportLabels': ['gen_resolve_err_locates', 'gen_resolve_err_locates_all', 'gen_assign_err_locates_labels', 'gen_label_covers_token'],
     'TransportAssign': ['gen_assign_eq_spec', 'gen_assign_root', 'gen_assign_no_panic', 'gen_assign_atomic', 'gen_assign_read_your_write',
                         'gen_assign_frame', 'gen_assign_replaced_some', 'gen_assign_replaced_none', 'gen_assign_idempotent',
